@@ -24,6 +24,10 @@ def payloads(rng):
     out.append(('short', b'MSH|^~\\&'))
     out.append(('utf8', 'MSH|^~\\&|S|F|R|RF|2020||ADT^A01|1|P|2.5\rPID|1||é中'.encode('utf-8')))
     out.append(('emptyline', b'MSH|^~\\&|S|F|R|RF|2020||ADT^A01|1|P|2.5\r\rPID|1'))
+    # framing bytes inside the payload: an end-block byte that is not followed by CR does not end the frame; a start block is just a byte
+    out.append(('typed:innerEB', b'MSH|^~\\&|S|F|R|RF|2020||ADT^A01|7|P|2.5\rPID|1||left\x1cright'))
+    out.append(('typed:innerEB2', b'MSH|^~\\&|S|F|R|RF|2020||QBP^Q11^QBP_Q11|7|P|2.5\rQPD|a\x1c\x1cb|\x0bc'))
+    out.append(('typed:innerEBunreg', b'MSH|^~\\&|S|F|R|RF|2020||ADT^A08|7|P|2.5\rPID|1||x\x1cy'))
     return out
 
 
